@@ -18,6 +18,12 @@ for f in sorted(glob.glob(f"{ROOT}/seeded/*/meta.json")):
             else:
                 parts.append(f"{c}: not detected (exit {r.get('exit')})")
         dets = "; ".join(parts)
+        if d.get("outside_quantifier"):
+            dets += " - OUTSIDE THE QUANTIFIER: " + d["outside_quantifier"][:120]
+        if d.get("neutralised"):
+            dets += " - NEUTRALISED: " + d["neutralised"][:160]
+        if not parts and d.get("confirmed", {}).get("patch_applies") is False:
+            dets = "reverse patch no longer applies to HEAD (a later fix rewrote the same lines); detected when it was made"
     else:
         dets = str(det)
     what = d.get("what") or ""
